@@ -80,6 +80,15 @@ Theorem C03_mfi_spec : forall p b0 bs,
   mfi_spec p b0 bs = (let w := lastn p (flows (tpr b0) bs) in mul XROps (div XROps (Fin (possum w)) (Fin (possum w + negsum w))) (Fin 100)).
 Proof. reflexivity. Qed.
 
+(* CCI, exact arithmetic: (TP - mean w) / (0.015 * MAD w) over the last min(t,n) typical prices w; 0 when MAD w = 0 *)
+From TA Require Import Proofs.XBase Proofs.XMad Proofs.XBands Proofs.XCci.
+Theorem C03_cci_exact : forall p s bs, cci_new XROps p = Ok s ->
+  cci_bar_outs s (map mkb bs) = cci_spec_stream (N.to_nat p) [] (map tp3 bs).
+Proof. exact cci_refines. Qed.
+Theorem C03_cci_value : forall p h tp, let w := lastn p (h ++ [tp]) in madev w <> 0%R ->
+  cci_spec p h tp = Fin ((tp - mean w) / (0.015 * madev w))%R.
+Proof. exact cci_value. Qed.
+
 From Coq Require Import List Floats.
 From TA Require Import Generic FloatInst XQ Run2 Par.Hom Par.Var Par.Oracle.
 (* the T2 oracle (exact rational run, evaluated by the checks) is the image of the exact real run these
